@@ -2,7 +2,7 @@
 from __future__ import annotations
 
 
-EXPLANATION = '(R1) PartReader.read_header on a symbolic particle file (6 variables of types d/i/b, selected or not, first one NOT selected): npart, 5 opaque records skipped by their own length markers, each selected variable decoded on its own record; record locator; (R3) each selected variable gains exactly one piece per file over a two-file history (own record x own magnitude, own unit label), particle count accumulated; (R4) SinkReader.initialize on a text-file model (code-unit and legacy headers): column i <-> name i <-> unit i, x,y,z merged, table made 2-D, missing -> None, empty -> empty group, every load parses anew; mesh buffers: scale/label pairing; (R6) Loader.load applies sortby to requested present groups after assembly; Datagroup.sortby applies one permutation. The sink fold includes two datasets with different code units in one process; numpy.frombuffer is modelled with signedness (a byte record read as uint8 is reported). (R8) a reload starts from empty pieces; (R9) units table answers for keys added after the dataset was created; a file with a single sink is read column by column. R6 runs Datagroup.sortby over groups of one to three members.'
+EXPLANATION = '(R1) PartReader.read_header on a symbolic particle file (6 variables of types d/i/b, selected or not, first one NOT selected): npart, 5 opaque records skipped by their own length markers, each selected variable decoded on its own record; record locator; (R3) each selected variable gains exactly one piece per file over a two-file history (own record x own magnitude, own unit label), particle count accumulated; (R4) SinkReader.initialize on a text-file model (code-unit and legacy headers): column i <-> name i <-> unit i, x,y,z merged, table made 2-D, missing -> None, empty -> empty group, every load parses anew; mesh buffers: scale/label pairing; (R6) Loader.load applies sortby to requested present groups after assembly; Datagroup.sortby applies one permutation. The sink fold includes two datasets with different code units in one process; numpy.frombuffer is modelled with signedness (a byte record read as uint8 is reported). (R8) a reload starts from empty pieces; (R9) units table answers for keys added after the dataset was created; a file with a single sink is read column by column. R6 runs Datagroup.sortby over groups of one to three members. R1 includes a file without particles (npart = 0: every selected variable still gains an empty piece); R4 includes a legacy header whose units are the words m and t.'
 NOT_DECIDED = "np.loadtxt's parsing of the numbers; particle families/tags semantics"
 TRUSTED = ('CPython ast', 'S1 particle layout', 'the interpreter sa/models.py (ModelEval) and its library models')
 TECHNIQUE = 'static analysis: abstract interpretation of the particle and sink readers over symbolic files'
